@@ -124,6 +124,21 @@ pub struct Interp<'a> {
     core_fn_ptrs: std::collections::HashSet<usize>,
 }
 
+impl<'a> Drop for Interp<'a> {
+    /// A model run leaves reference cycles behind (module -> global function -> module; class -> method
+    /// -> captured scope -> class; variable -> closure -> scope -> variable): empty the containers.
+    fn drop(&mut self) {
+        for m in self.modules.values() {
+            m.globals.borrow_mut().clear();
+        }
+        for c in self.metaclasses.borrow().values() {
+            c.methods.borrow_mut().clear();
+            c.statics.borrow_mut().clear();
+        }
+        crate::mval::release_scopes();
+    }
+}
+
 fn new_class(name: &str, parent: Option<Rc<Class>>) -> Rc<Class> {
     Rc::new(Class { name: name.to_string(), parent, methods: RefCell::new(HashMap::new()), statics: RefCell::new(HashMap::new()) })
 }
